@@ -65,7 +65,7 @@ def symbolize(exe, text):
 def run_check(prop, tier):
     spec = CHECKS[prop]
     runs = spec[tier] if tier in spec else spec["quick"]
-    budget = float(os.environ.get("VERIF_BUDGET_S", spec.get("budget", {}).get(tier, 150 if tier == "quick" else 1500)))
+    budget = float(os.environ.get("VERIF_BUDGET_S", spec.get("budget", {}).get(tier, 240 if tier == "quick" else 2400)))
     seed = int(os.environ.get("VERIF_SEED", "0") or 0)
     t0 = time.time()
     outdir = os.path.join(OUT, prop)
@@ -84,8 +84,7 @@ def run_check(prop, tier):
         exe = fmcbuild.build_harness(hname, h["kind"], libdir, extra_wraps=h.get("wraps", ()), lib_objs=h.get("objs"))
         label = "%s-%d" % (hname, idx)
         remaining = budget - (time.time() - t0)
-        per = max(5.0, remaining / max(1, len(runs) - idx) * 1.6)
-        per = min(per, max(5.0, remaining))
+        per = max(5.0, remaining)  # a run may use whatever is left of the check's budget
         jpath = os.path.join(outdir, label + ".json")
         args = list(run["args"])
         cmd = [exe] + args + ["-name=" + label, "-out=" + outdir, "-json=" + jpath, "-deadline%.1f" % per]
